@@ -1390,7 +1390,7 @@ func (d *Data) handleSparsevolByPoint(ctx *datastore.VersionedCtx, w http.Respon
 	}
 	isSupervoxel := queryStrings.Get("supervoxels") == "true"
 
-	coord, err := dvid.StringToPoint(parts[4], "_")
+	coord, err := dvid.StringToPoint3d(parts[4], "_")
 	if err != nil {
 		server.BadRequest(w, r, err)
 		return
